@@ -222,8 +222,8 @@ def show(t):
         return {'nil': 'NIL', 'hl': 'HARDLINE', 'line': 'LINE', 'soft': 'SOFTLINE'}[k]
     if k in ('cat', 'fill'):
         return '%s([%s])' % ('concat' if k == 'cat' else 'fill', ', '.join(show(x) for x in t[1]))
-    if k == 'nest':
-        return 'nest(%d, %s)' % (t[1], show(t[2]))
+    if k in ('nest', 'hang'):
+        return '%s(%d, %s)' % (k, t[1], show(t[2]))
     if k == 'fc':
         return 'flat_choice(when_broken=%s, when_flat=%s)' % (show(t[1]), show(t[2]))
     return '%s(%s)' % ({'grp': 'group', 'ab': 'always_break', 'ann': 'annotate', 'align': 'align'}[k], show(t[1]))
